@@ -70,6 +70,22 @@ def run(check: Check):
   for modname, q in ANCHORS:
     fi = repo.func(modname, q)
     ff = FuncFlow.of(repo, fi)
+    # a file that is published must be written through a buffered writer: a raw (buffering=0) file may write fewer bytes than it was
+    # given, and copyfileobj / write() callers do not look at the count
+    for _, c in ff.calls():
+      if (ff.ext(c.func) or '') in ('builtins.open', 'io.open', 'tensorflow.io.gfile.GFile') or txt(c.func) in ('open', 'io.FileIO'):
+        raw = any(k.arg == 'buffering' and isinstance(k.value, ast.Constant) and k.value.value == 0 for k in c.keywords) or (
+            len(c.args) >= 3 and isinstance(c.args[2], ast.Constant) and c.args[2].value == 0) or txt(c.func) == 'io.FileIO'
+        mode = next((a.value for a in c.args[1:2] if isinstance(a, ast.Constant)), None) or next(
+            (k.value.value for k in c.keywords if k.arg == 'mode' and isinstance(k.value, ast.Constant)), 'r')
+        if raw and isinstance(mode, str) and any(ch in mode for ch in 'wax+'):
+          check.ob('R-ATOMIC.unbuffered', fi, txt(c)[:80], False,
+                   'an unbuffered file object may accept fewer bytes than it is handed (disk full, size limit) without raising; the short '
+                   'file is then renamed into place as complete', node=c, exact=True)
+    for call, where in aa.renames_on_failure_path(ff):
+      check.ob('R-ATOMIC.finally', fi, txt(call)[:80], False,
+               f'the rename that publishes the file sits in a `{where}` block: it also runs while an exception (Ctrl-C included) is '
+               'leaving the block, after an incomplete or unvalidated write', node=call, exact=True)
     markers = find_markers(ff)
     # Only markers whose produce arm exists (the cache pattern).
     markers = [mk for mk in markers if mk[3]]
